@@ -8,6 +8,7 @@ CONSTANTS
   AllowQueryX = FALSE
   AllowSweep = TRUE
   AllowDeclare = FALSE
+  AllowDetach = FALSE
   AllowInfer = FALSE
   CopyModes = {"copy","from_dao"}
   UnregisteredModes = {"from_dao"}
